@@ -86,6 +86,13 @@ pub fn into_bytes_incircuit(
 ) -> Result<CircuitValue, Error> {
     use CircuitValue::*;
     match input {
+        // Like off-circuit, a native value is not converted into more bytes than a field
+        // element holds (the decomposition chip would panic).
+        Native(_) if n as u32 > F::NUM_BITS.div_ceil(8) => Err(Error::Unsupported(
+            Operation::IntoBytes(n),
+            vec![input.get_type()],
+        )),
+
         Native(x) => {
             let bytes = std_lib.assigned_to_le_bytes(layouter, x, Some(n))?;
             Ok(bytes.to_vec().into())
